@@ -54,8 +54,9 @@ class Rig:
         self.rename_fail = set()  # final filenames whose rename must fail
         self.kinds = []
         self.finals = {}
-        self.futures = []
+        self.futures = {}
         self.req_of = {}          # transfer index -> StubRequest
+        self.spec_of = {}         # transfer index -> scenario spec (two submitting threads: indices are in call order)
         self.serializer_fail = set()
         self.sh = sched_shims
         rig = self
@@ -166,7 +167,20 @@ class Rig:
             factory = Future
         self.result_calls = 0
         self.ki_plan = set()
-        self.client = fakecrt.StubS3Client(factory, future_first=future_first, log=self.log)
+        class CtxClient(fakecrt.StubS3Client):
+            # requests are attributed to the submitting call through the thread-local context, so that
+            # several application threads may submit at once
+            def make_request(self_c, **kwargs):
+                if _CTX.cur in rig.fail_make_request:
+                    self_c.calls += 1
+                    self_c.log('make_request-raises', _CTX.cur)
+                    raise fakecrt.AwsCrtError(1, 'AWS_ERROR_INVALID_ARGUMENT', 'stub construction failure')
+                r = super().make_request(**kwargs)
+                r.tidx = _CTX.cur
+                rig.req_of[_CTX.cur] = r
+                return r
+        self.fail_make_request = set()
+        self.client = CtxClient(factory, future_first=future_first, log=self.log)
         self.mgr = crt.CRTTransferManager(self.client, Ser())
         _CTX.cur = None
 
@@ -184,13 +198,14 @@ class Rig:
         self.events.append((seq, getattr(_CTX, 'cur', None), kind, detail))
 
     # ---- operations ---------------------------------------------------------
-    def submit(self, kind, fail_mode):
+    def submit(self, kind, fail_mode, spec=None):
         """fail_mode: None | 'make_request' | 'serializer' | 'nofile' (uploads from a path only)"""
         idx = len(self.kinds)
         self.kinds.append(kind)
+        self.spec_of[idx] = spec if spec is not None else {'kind': kind, 'fail': fail_mode, 'err': False, 'rename_fails': False}
         _CTX.cur = idx
         if fail_mode == 'make_request':
-            self.client.construct_failures.add(self.client.calls)
+            self.fail_make_request.add(idx)
         elif fail_mode == 'serializer':
             self.serializer_fail.add(idx)
         subs = [self.Sub(idx)]
@@ -217,11 +232,7 @@ class Rig:
                 fut = m.delete('bucket', 'key-%d' % idx, subscribers=subs)
         finally:
             _CTX.cur = None
-        self.futures.append(fut)
-        if self.client.calls > before and (self.client.calls - 1) in self.client.requests:
-            r = self.client.requests[self.client.calls - 1]
-            r.tidx = idx
-            self.req_of[idx] = r
+        self.futures[idx] = fut
         return idx
 
     def complete(self, idx, err, rename_fails):
@@ -364,9 +375,12 @@ def _gen_scenario(rng, tier):
         transfers.append({'kind': kind, 'fail': fail, 'err': rng.random() < 0.3,
                           'rename_fails': kind == 'dlpath' and rng.random() < 0.25})
     end = rng.choice(['exit', 'exit', 'shutdown-cancel', 'exception-in-block', 'ctrl-c'])
+    submitters = rng.choice([1, 1, 2])
+    if submitters == 2 and end == 'exception-in-block':
+        end = 'exit'        # leaving the block while another thread still submits is the application's error
     return {'cap': cap, 'future_first': rng.random() < 0.7, 'transfers': transfers, 'end': end,
             'crt_threads': rng.choice([1, 2]), 'raise_after': rng.randrange(1, n + 1),
-            'ki_at': rng.randrange(0, 3), 'sched_seed': rng.randrange(1 << 30),
+            'ki_at': rng.randrange(0, 3), 'sched_seed': rng.randrange(1 << 30), 'submitters': submitters,
             'mode': rng.choice(['uniform', 'sticky', 'pct', 'stall'])}
 
 
@@ -401,7 +415,7 @@ def run_scenario(sc, schedule=None):
                 i = s.rng.choice(cands)
                 state['claimed'].add(i)
                 s.point('crt-picked')
-                t = sc['transfers'][i]
+                t = rig.spec_of[i]
                 err = t['err'] or rig.req_of[i].cancel_requested
                 rig.complete(i, err, t['rename_fails'])
 
@@ -411,11 +425,24 @@ def run_scenario(sc, schedule=None):
             try:
                 try:
                     with rig.mgr:
-                        for k, t in enumerate(sc['transfers']):
+                        mine = sc['transfers']
+                        helper = None
+                        if sc.get('submitters', 1) == 2 and len(mine) >= 4:
+                            # a second application thread submits through the same manager
+                            half = len(mine) // 2
+                            theirs, mine = mine[half:], mine[:half]
+
+                            def second():
+                                for t2 in theirs:
+                                    rig.submit(t2['kind'], t2['fail'], t2)
+                            helper = s.spawn(second, 'submitter2')
+                        for k, t in enumerate(mine):
                             if sc['end'] == 'exception-in-block' and k == sc['raise_after']:
                                 raise UserError()
-                            rig.submit(t['kind'], t['fail'])
+                            rig.submit(t['kind'], t['fail'], t)
                             out['submitted'] = k + 1
+                        if helper is not None:
+                            s.block_until(lambda: helper.finished, ('join', 'submitter2'))
                         if sc['end'] == 'shutdown-cancel':
                             rig.mgr.shutdown(cancel=True)
                 except UserError:
@@ -442,7 +469,7 @@ def run_scenario(sc, schedule=None):
 
 
 def _path_of(sc, rig, i):
-    t = sc['transfers'][i]
+    t = rig.spec_of[i]
     if t['fail']:
         return 'construct-fail'
     r = rig.req_of.get(i)
@@ -484,7 +511,7 @@ def judge(sc, out):
         if rig.kinds[i] == 'dlpath' and path != 'construct-fail':
             summ = out['summaries'][i]
             fs = summ.split('fs=')[1].split()[0]
-            t = sc['transfers'][i]
+            t = rig.spec_of[i]
             if path == 'success' and not t['rename_fails']:
                 if fs != 'renamed':
                     v.append(('not-published', 'successful download %d: destination state %s' % (i, fs)))
@@ -502,7 +529,7 @@ def _model_lines(sc, out):
         if k in ('make_request', 'make_request-raises', 'serializer-raises', 'nofile'):
             lines.append('crt submit %s %d' % (rig.kinds[c], k != 'make_request'))
         elif k == 'on_done-begin':
-            t = sc['transfers'][c]
+            t = rig.spec_of[c]
             err = rig.req_of[c].used_err
             lines.append('crt complete %d %d %d' % (c, err, t['rename_fails'] and rig.kinds[c] == 'dlpath'))
     return lines
@@ -525,8 +552,9 @@ def sched_corr(seed, tier):
         # 'nofile' construction failures are raised by os.path.getsize before any stub is reached
         # (no event): add the submit line at the position of the transfer's release
         lines = _model_lines_with_nofile(sc, out)
-        lines += ['crt show %d' % i for i in range(len(rig.kinds))] + ['crt free']
-        expect = [None] * (len(lines) - len(rig.kinds) - 1) + out['summaries'] + [
+        order = [i for i in range(len(rig.kinds)) if i in out['midx']]
+        lines += ['crt show %d' % out['midx'][i] for i in order] + ['crt free']
+        expect = [None] * (len(lines) - len(order) - 1) + [out['summaries'][i] for i in order] + [
             'free=%d outstanding=0 n=%d' % (out['free'], len(rig.kinds))]
         batch.append((sc, lines, expect))
         res.note_case((sc['cap'], tuple((t['kind'], t['fail'], t['err']) for t in sc['transfers']), sc['end'], tuple(out['choices'][:40])),
@@ -565,23 +593,27 @@ def sched_corr(seed, tier):
 
 
 def _model_lines_with_nofile(sc, out):
+    """Linearise the run: submissions at the moment the request was created / failed, completions at
+    the moment the client called on_done.  With two submitting threads the model numbers transfers in
+    the order of these submission events; `out['midx']` maps the rig's index to the model's."""
     rig = out['rig']
     lines = ['crt init %d %d' % (sc['cap'], sc['future_first'])]
-    seen = set()
+    midx = {}
     for seq, c, k, _ in sorted(rig.events, key=lambda e: e[0]):
         if c is None:
             continue
         if k in ('make_request', 'make_request-raises', 'serializer-raises'):
-            seen.add(c)
+            midx[c] = len(midx)
             lines.append('crt submit %s %d' % (rig.kinds[c], k != 'make_request'))
-        elif k == 'subs' and c not in seen:
+        elif k == 'subs' and c not in midx:
             # construction failed before the serializer / client was reached (missing upload file)
-            seen.add(c)
+            midx[c] = len(midx)
             lines.append('crt submit %s 1' % rig.kinds[c])
         elif k == 'on_done-begin':
-            t = sc['transfers'][c]
+            t = rig.spec_of[c]
             err = rig.req_of[c].used_err
-            lines.append('crt complete %d %d %d' % (c, err, t['rename_fails'] and rig.kinds[c] == 'dlpath'))
+            lines.append('crt complete %d %d %d' % (midx[c], err, t['rename_fails'] and rig.kinds[c] == 'dlpath'))
+    out['midx'] = midx
     return lines
 
 
